@@ -251,11 +251,13 @@ where
     // apply change to pixel data attribute
     match bits_allocated {
         8 => {
-            // 8-bit samples
+            // 8-bit samples: a string of bytes
+            // (as OW the byte pairs would be taken for 16-bit words
+            // and come out swapped in a big endian transfer syntax)
             let pixels = decoded_pixeldata.data().to_vec();
             obj.put(DataElement::new_with_len(
                 tags::PIXEL_DATA,
-                VR::OW,
+                VR::OB,
                 Length::defined(pixels.len() as u32),
                 PrimitiveValue::from(pixels),
             ));
